@@ -621,6 +621,62 @@ func runC02(r *Run) {
 	// (stateDB.Commit() before every precompile dispatch) — the same rule code as C05 R2
 	r.Rule("R6", "see C05 R2 (imported): the message always runs on a cache context that is committed only on success")
 	r.Import("R6/C05.", []string{"R2"}, runC05)
+	// a balance change that a revert does not undo is minted or burned by the final Commit: the journal discipline
+	// of x/evm/statedb is part of this property too — the same rule code as C05 R4
+	r.Rule("R8", "see C05 R4 (imported): every write to revertible StateDB state is journalled, every entry's Revert restores what was written after it was appended, from recorded values")
+	r.Import("R8/C05.", []string{"R4"}, runC05)
+
+	// R7: an account object that replaces another inherits its balance
+	r.Rule("R7", "PATH.create-carries-balance: StateDB.CreateAccount (CREATE/CREATE2 onto an address that already has an account object or a bank balance) sets the new object's balance from the previous object's balance on every path on which createObject returned a previous object — whatever the previous object's journal state; the balance cached in an object is what Commit writes, so an object that starts at zero burns the address's coins")
+	if ca, ok := P.FnOK("(*x/evm/statedb.StateDB).CreateAccount"); ok {
+		var co *ssa.Call
+		eachInstr(ca, func(in ssa.Instruction) {
+			if c, ok := in.(*ssa.Call); ok && callInfo(c).Name == "createObject" {
+				co = c
+			}
+		})
+		if co == nil {
+			r.Bad("R7", fnID(ca)+"#carries-balance", P.Pos(fnPos(ca)), "CreateAccount no longer obtains the previous object from createObject")
+		} else {
+			isPrev := func(v ssa.Value) bool {
+				ex, ok := stripValue(v).(*ssa.Extract)
+				return ok && ex.Tuple == ssa.Value(co) && ex.Index == 1
+			}
+			prevNil, _ := condEdges(ca, func(x, y ssa.Value) bool { return isPrev(x) && isNilConst(y) })
+			isCarry := func(in ssa.Instruction) bool {
+				c, ok := in.(ssa.CallInstruction)
+				if !ok {
+					return false
+				}
+				ci := callInfo(c)
+				if ci.Name != "setBalance" && ci.Name != "SetBalance" {
+					return false
+				}
+				a := callArgs(c)
+				if len(a) < 2 {
+					return false
+				}
+				recvNew := false
+				if ex, ok := stripValue(a[0]).(*ssa.Extract); ok && ex.Tuple == ssa.Value(co) && ex.Index == 0 {
+					recvNew = true
+				}
+				fromPrev := false
+				backSlice(a[1]).Any(func(v ssa.Value) bool {
+					if isPrev(v) {
+						fromPrev = true
+					}
+					return fromPrev
+				})
+				return recvNew && fromPrev
+			}
+			isRet := func(in ssa.Instruction) bool { _, ok := in.(*ssa.Return); return ok }
+			w := PathQuery{Fn: ca, Start: co, Block: isCarry, Target: isRet, DelEdge: edgeSet(prevNil)}.Search()
+			r.Check(w == nil && len(prevNil) > 0, "R7", fnID(ca)+"#carries-balance", P.Pos(fnPos(ca)), "new object's balance := previous object's balance whenever a previous object exists",
+				"CreateAccount can return without carrying the previous object's balance over although a previous object exists: the new contract object starts at zero and the final Commit burns what the address held (e.g. a CREATE2 address funded in an earlier transaction)", P.witness(w)...)
+		}
+	} else {
+		r.Bad("R7", "anchor/StateDB.CreateAccount", "", "not found")
+	}
 
 }
 
